@@ -260,8 +260,89 @@ def _canonicalise_params(raw):
     raw["_canon"] = old
 
 
+_NAMEMAP = None
+
+
+def _namemap():
+    global _NAMEMAP
+    if _NAMEMAP is None:
+        import json
+        import os
+        p = os.path.join(os.path.dirname(os.path.abspath(__file__)), "namemap.json")
+        try:
+            with open(p) as fh:
+                _NAMEMAP = json.load(fh)
+        except OSError:
+            _NAMEMAP = {}
+    return _NAMEMAP
+
+
+def _canonicalise_names(raw, unit):
+    """Alpha-rename parameters and locals back to the names frozen in engine/namemap.json (reference tree), matching variables
+    by declared type and declaration order.  A pure rename is behaviour preserving and must be invisible to rules that spell
+    atoms over local names.  Only applied when, for a type, the number of variables is unchanged; never creates a clash."""
+    if raw.get("_canon_names"):
+        return
+    raw["_canon_names"] = True
+    ref = _namemap().get(unit, {}).get(raw["name"])
+    if not ref:
+        return
+    cur = [(p["t"], p["name"]) for p in raw["params"]]
+    ds = []
+    for b in raw["blocks"]:
+        for e in b["events"]:
+            if e.get("ev") == "decl" and e.get("name"):
+                ds.append((e["line"], e["name"], e.get("t", "")))
+    seen = set()
+    for (_l, n, t) in sorted(ds):
+        if n not in seen and n not in [c[1] for c in cur]:
+            seen.add(n)
+            cur.append((t, n))
+    if [tuple(x) for x in ref] == cur:
+        return
+    bytype_ref, bytype_cur = {}, {}
+    for t, n in ref:
+        bytype_ref.setdefault(t, []).append(n)
+    for t, n in cur:
+        bytype_cur.setdefault(t, []).append(n)
+    ren = {}
+    for t, names in bytype_cur.items():
+        rn = bytype_ref.get(t)
+        if rn and len(rn) == len(names):
+            for a, b in zip(names, rn):
+                if a != b:
+                    ren[a] = b
+    if not ren:
+        return
+    all_cur = {n for _t, n in cur}
+    # no clashes: a target name must not be the (unrenamed) name of another variable
+    for a, b in list(ren.items()):
+        if b in all_cur and b not in ren:
+            del ren[a]
+    if not ren:
+        return
+
+    def walk_(e):
+        if isinstance(e, dict):
+            if e.get("k") == "var" and e.get("vk") in ("param", "local", "slocal") and e.get("name") in ren:
+                e["name"] = ren[e["name"]]
+            if e.get("ev") == "decl" and e.get("name") in ren:
+                e["name"] = ren[e["name"]]
+            for v in e.values():
+                walk_(v)
+        elif isinstance(e, list):
+            for v in e:
+                walk_(v)
+    walk_(raw["blocks"])
+    for p in raw["params"]:
+        if p["name"] in ren:
+            p["name"] = ren[p["name"]]
+    raw["_renamed"] = ren
+
+
 class Func:
     def __init__(self, raw, unit):
+        _canonicalise_names(raw, unit)
         _canonicalise_params(raw)
         self.raw = raw
         self.name = raw["name"]
